@@ -376,7 +376,7 @@ var (
 
 func genInj(t *rapid.T) InjCase {
 	c := InjCase{Kind: rapid.SampledFrom([]string{"injectable", "injectable", "injectable", "no-resource", "resource-not-object", "headers-not-object",
-		"array", "scalar", "invalid-json", "empty-object", "nested-deeper"}).Draw(t, "kind"), Binary: rapid.IntRange(0, 3).Draw(t, "bin") == 0}
+		"array", "scalar", "invalid-json", "empty-object", "nested-deeper", "two-documents", "object-plus-trailer", "object-plus-whitespace"}).Draw(t, "kind"), Binary: rapid.IntRange(0, 3).Draw(t, "bin") == 0}
 	names := []string{"Authorization", "X-Custom", "Cookie", "X-Forwarded-For", "Accept-Language"}
 	n := rapid.IntRange(0, 4).Draw(t, "nheaders")
 	for _, nm := range rapid.Permutation(names).Draw(t, "names")[:n] {
@@ -400,6 +400,15 @@ func (c *InjCase) message() []byte {
 	case "nested-deeper":
 		b, _ := json.Marshal(map[string]any{"resource": map[string]any{"headers": hdrs, "inner": map[string]any{"resource": map[string]any{"headers": map[string]any{}}}}})
 		return b
+	case "two-documents":
+		b, _ := json.Marshal(map[string]any{"resource": map[string]any{"headers": hdrs}, "n": 1})
+		return append(append(b, '\n'), []byte(`{"resource":{"headers":{}},"n":2}`)...)
+	case "object-plus-trailer":
+		b, _ := json.Marshal(map[string]any{"resource": map[string]any{"headers": hdrs}})
+		return append(b, []byte(" #crc=9f3a"+c.Extra)...)
+	case "object-plus-whitespace":
+		b, _ := json.Marshal(map[string]any{"resource": map[string]any{"headers": hdrs}, "n": 3})
+		return append([]byte("  \n"), append(b, []byte(" \n\t ")...)...)
 	case "no-resource":
 		return []byte(`{"foo": {"headers": {}},   "bar":[1,2,3], "s": "` + "x" + `"}`)
 	case "resource-not-object":
@@ -458,7 +467,7 @@ func runInj(c *InjCase) vh.Outcome {
 		o.Err = fmt.Errorf("message type changed by injection")
 		return o
 	}
-	injectable := c.Kind == "injectable" || c.Kind == "nested-deeper"
+	injectable := c.Kind == "injectable" || c.Kind == "nested-deeper" || c.Kind == "object-plus-whitespace"
 	o.Classes = append(o.Classes, c.Kind)
 	if !injectable {
 		if !bytes.Equal(got.Data, msg) {
